@@ -86,6 +86,41 @@ pub fn anchor() -> SweepProfile {
     }
 }
 
+/// Nested quantifiers over nullable bodies with few constructors and deeper sizes (termination).
+pub fn loops() -> SweepProfile {
+    let unary = vec![Unary::Group, q(0, None, true), q(1, None, true), q(0, Some(1), true), q(2, Some(2), true), q(0, None, false), q(1, None, false), q(0, Some(3), true)];
+    SweepProfile {
+        profile: Profile { name: "P-loops", leaves: vec![ch('a'), Node::Empty, ch('b')], unary, cat: true, alt: true, max_quant_nest: 3 },
+        flags: vec![fl("")],
+        alphabet: cps("ab"),
+        size_quick: 6,
+        size_thorough: 7,
+        hay_quick: 3,
+        hay_thorough: 4,
+    }
+}
+
+/// One-character loops with captures over multi-unit characters (giving a character back).
+pub fn dotcap() -> SweepProfile {
+    let unary = vec![Unary::Group, q(0, None, true), q(0, None, false), q(1, None, true), q(0, Some(1), true), Unary::Look(true, false)];
+    SweepProfile {
+        profile: Profile {
+            name: "P-dotcap",
+            leaves: vec![Node::Dot, ch('\u{1F600}'), Node::Class { negated: true, items: vec![ClassItem::Single('a' as u32)] }, ch('a'), Node::Esc(EscKind::NotSpace)],
+            unary,
+            cat: true,
+            alt: false,
+            max_quant_nest: 1,
+        },
+        flags: vec![fl(""), fl("u")],
+        alphabet: vec!['a' as u32, 0x1F600, 'é' as u32],
+        size_quick: 6,
+        size_thorough: 7,
+        hay_quick: 3,
+        hay_thorough: 4,
+    }
+}
+
 pub fn look() -> SweepProfile {
     let unary = vec![
         Unary::Group,
@@ -307,10 +342,10 @@ pub fn onechar() -> SweepProfile {
         profile: Profile { name: "P-1char", leaves, unary, cat: true, alt: false, max_quant_nest: 1 },
         flags: vec![fl(""), fl("u"), fl("i"), fl("s")],
         alphabet: vec!['a' as u32, 'b' as u32, 'é' as u32, '😀' as u32],
-        size_quick: 3,
+        size_quick: 4,
         size_thorough: 4,
-        hay_quick: 3,
-        hay_thorough: 4,
+        hay_quick: 2,
+        hay_thorough: 3,
     }
 }
 
@@ -417,6 +452,8 @@ pub fn by_name(name: &str) -> Option<SweepProfile> {
         "core" => core(),
         "capback" => capback(),
         "anchor" => anchor(),
+        "loops" => loops(),
+        "dotcap" => dotcap(),
         "look" => look(),
         "nest" => nest(),
         "nestlook" => nestlook(),
@@ -432,4 +469,4 @@ pub fn by_name(name: &str) -> Option<SweepProfile> {
     })
 }
 
-pub const ALL: [&str; 14] = ["core", "capback", "anchor", "vset", "dupref", "look", "nest", "nestlook", "utf8", "icase", "lit", "onechar", "named", "mods"];
+pub const ALL: [&str; 16] = ["core", "capback", "anchor", "loops", "dotcap", "vset", "dupref", "look", "nest", "nestlook", "utf8", "icase", "lit", "onechar", "named", "mods"];
